@@ -61,9 +61,19 @@ fn check_interleaver(l: &mut Local, c_cols: usize, r_rows: usize, backward: bool
             }
         }
     }
-    // interleave o deinterleave = id and deinterleave = inverse permutation, f64
+    // interleave o deinterleave = id and deinterleave = inverse permutation, f64; every third element is a
+    // signed zero (an exact re-ordering preserves the bit pattern of every element, including -0.0)
     l.eval();
-    let tf: Vec<f64> = (0..n).map(|i| i as f64 + 0.25).collect();
+    let tf: Vec<f64> = (0..n).map(|i| if i % 3 == 1 { -0.0 } else if i % 3 == 2 && i % 2 == 0 { 0.0 } else { i as f64 + 0.25 }).collect();
+    // forward direction bit-exact on floats
+    if let Ok(o) = guard(|| il.interleave(&Array1::from_vec(tf.clone()))) {
+        let exp: Vec<u64> = want.iter().map(|&s| tf[s].to_bits()).collect();
+        let got: Vec<u64> = o.iter().map(|x| x.to_bits()).collect();
+        if got != exp {
+            l.violation(format!("interleave is not an exact re-ordering of f64 elements (bit patterns differ, {})", dirname), det("f64 bits").set("input", crate::json::jfs(&tf)).set("output", crate::json::jfs(&o.to_vec())));
+            return;
+        }
+    }
     match guard(|| il.deinterleave(&tf)) {
         Err(p) => {
             l.violation(format!("deinterleave panicked ({}): {}", dirname, panic_class(&p)), det(&p));
@@ -75,12 +85,12 @@ fn check_interleaver(l: &mut Local, c_cols: usize, r_rows: usize, backward: bool
             for (dst, &src) in want.iter().enumerate() {
                 exp[src] = tf[dst];
             }
-            if d != exp {
+            if d.iter().map(|x| x.to_bits()).collect::<Vec<_>>() != exp.iter().map(|x| x.to_bits()).collect::<Vec<_>>() {
                 l.violation(format!("deinterleave is not the inverse permutation ({})", dirname), det("inverse"));
                 return;
             }
             match guard(|| il.interleave(&Array1::from_vec(d.clone()))) {
-                Ok(o) if o.to_vec() == tf => {}
+                Ok(o) if o.iter().map(|x| x.to_bits()).collect::<Vec<_>>() == tf.iter().map(|x| x.to_bits()).collect::<Vec<_>>() => {}
                 Ok(_) => {
                     l.violation(format!("interleave(deinterleave(x)) != x ({})", dirname), det("round trip 2"));
                     return;
@@ -257,6 +267,27 @@ fn check_puncturer(l: &mut Local, pattern: &[bool], block: usize) {
     }
 }
 
+/// length 0 is divisible by every pattern length: empty in, empty out, no panic
+fn check_empty(l: &mut Local, pattern: &[bool]) {
+    let p = Puncturer::new(pattern);
+    let det = |what: &str| J::obj().set("pattern", pattern.iter().map(|&b| b as u64).collect::<Vec<_>>()).set("length", 0).set("what", what);
+    l.eval();
+    match guard(|| p.puncture(&Array1::<u8>::from_vec(vec![]))) {
+        Ok(Ok(o)) if o.is_empty() => {}
+        Ok(Ok(o)) => l.violation("puncture of an empty codeword returns a non-empty result", det("puncture").set("output_len", o.len())),
+        Ok(Err(e)) => l.violation("puncture of an empty codeword (length 0 is divisible by any pattern length) returns an error", det(&format!("{:?}", e))),
+        Err(pm) => l.violation(format!("puncture panicked on an empty codeword: {}", panic_class(&pm)), det(&pm)),
+    }
+    l.eval();
+    let empty: Vec<f64> = vec![];
+    match guard(|| p.depuncture(&empty)) {
+        Ok(Ok(o)) if o.is_empty() => {}
+        Ok(Ok(o)) => l.violation("depuncture of an empty frame returns a non-empty result", det("depuncture").set("output_len", o.len())),
+        Ok(Err(e)) => l.violation("depuncture of an empty frame returns an error", det(&format!("{:?}", e))),
+        Err(pm) => l.violation(format!("depuncture panicked on an empty frame: {}", panic_class(&pm)), det(&pm)),
+    }
+}
+
 fn check_indivisible(l: &mut Local, pattern: &[bool], len: usize) {
     let p = Puncturer::new(pattern);
     let plen = pattern.len();
@@ -293,7 +324,7 @@ fn check_indivisible(l: &mut Local, pattern: &[bool], len: usize) {
 
 pub fn run(run: &mut Run) {
     let miri = cfg!(miri);
-    run.rule = "interleaver: EXHAUSTIVE over columns C in 1..12, rows R in 1..12, both directions, element types i64/f64/u8/GF2 with unique tags so the permutation is read off the output (plus random larger shapes up to 360x180 in thorough); puncturer: EXHAUSTIVE over all 510 patterns of length <= 8 with >= 1 true x block sizes 1..6, and all lengths <= 50 that the pattern length / kept count does not divide; non-trivial = shape with C>1 and R>1 / pattern that removes at least one block; distinct by (C,R,dir) or (pattern, block)".into();
+    run.rule = "interleaver: EXHAUSTIVE over columns C in 1..12, rows R in 1..12, both directions, element types i64/f64/u8/GF2 with unique tags so the permutation is read off the output (f64 vectors contain +0.0 and -0.0 and are compared bit for bit) (plus random larger shapes up to 360x180 in thorough); puncturer: EXHAUSTIVE over all 510 patterns of length <= 8 with >= 1 true x block sizes 1..6, all lengths <= 50 that the pattern length / kept count does not divide, and the empty input; non-trivial = shape with C>1 and R>1 / pattern that removes at least one block; distinct by (C,R,dir) or (pattern, block)".into();
     run.exhaustive = Some(true);
     run.assumptions = vec![
         "the interleaver's documented panic on lengths not divisible by the column count is outside the statement".into(),
@@ -332,6 +363,7 @@ pub fn run(run: &mut Run) {
     let maxlen_ind = if miri { 8 } else { 50 };
     run.sub("puncturer-indivisible", np as u64, |l, idx, _rng| {
         let pat = &patterns[idx as usize];
+        check_empty(l, pat);
         for len in 1..=maxlen_ind {
             check_indivisible(l, pat, len);
         }
